@@ -91,6 +91,15 @@ class Kinds:
                 child = self.sch.child_kinds(parent, seq.attr)
                 if child is not None and child[1] == "*" and child[0]:
                     return child[0]
+            if not parent:
+                # the holder's kind is unknown, but every kind of the grammar that has this sequence field agrees on
+                # what its elements are (`<stm>.body` holds body literals whatever the statement is)
+                holders = [k for k in self.sch.kinds if self.sch.field(k, seq.attr) is not None]
+                kids = {self.sch.child_kinds(frozenset({k}), seq.attr) for k in holders}
+                if len(kids) == 1:
+                    child = next(iter(kids))
+                    if child is not None and child[1] == "*" and child[0]:
+                        return child[0]
             if not parent and seq.attr == "arguments" and isinstance(seq.value, ast.Attribute) and seq.value.attr == "symbol":
                 # `<atom>.symbol.arguments`: whatever the atom is, a symbol that HAS arguments is a Function: its arguments are terms
                 f = self.sch.field("Function", "arguments")
